@@ -44,8 +44,22 @@ def build(cfg, V):
     return r['cct'].Circuit(comps), val
 
 
+class _Sibling:
+    """value factory view: the same circuit with every value replaced by another atom"""
+    def __init__(s, V): s.V = V; s.sym = V.sym; s.mode = V.mode
+    def val(s, name, kind='c'): return s.V.val(name + '~sibling', kind)
+    def __getattr__(s, k): return getattr(s.V, k)
+
+
 def model(cfg, V):
     r = cirlib.repo()
+    if cfg.get('sibling', True):
+        # a sibling circuit (same topology and names, other values) is modelled first: the model under test must not depend on it
+        sc, sv = build(cfg, _Sibling(V))
+        fl0 = core.sym_float if V.sym else float
+        r['nssm'].nodal_state_space_model(r['cct'].transform_circuit(sc, w=0),
+                                          c_values={c.id: fl0(c.value['C']) for c in sc.components if c.type == 'capacitor'},
+                                          l_values={c.id: fl0(c.value['L']) for c in sc.components if c.type == 'inductance'})
     circuit, val = build(cfg, V)
     network = r['cct'].transform_circuit(circuit, w=0)
     fl = core.sym_float if V.sym else float
@@ -257,6 +271,11 @@ def rename(cfg, rng):
     m = {c[0]: nm for c, nm in zip(cfg['components'], names)}
     nn = sorted({x for c in cfg['components'] for x in (c[1], c[2])})
     nm2 = dict(zip(nn, rng.sample(['0', '1', '10', '2', 'a', 'B', 'gnd', 'x'], len(nn))))
+    if rng.random() < 0.5:
+        # anti-conventional naming: voltage sources sort first, then inductors, then passive elements, current sources LAST
+        rank = {'Vdc': 0, 'L': 1, 'C': 2, 'R': 3, 'Idc': 4}
+        by_rank = sorted(cfg['components'], key=lambda c: rank[c[3]])
+        for c, nm in zip(by_rank, sorted(names)): m[c[0]] = nm
     comps = [(m[c[0]], nm2[c[1]], nm2[c[2]], c[3]) for c in cfg['components']]
     rng.shuffle(comps)
     if rng.random() < 0.6:
